@@ -758,9 +758,6 @@ func pomUpdateClasses(an *pomAnalysis, ups []pomUpdate, name string) []string {
 		if s.name() != name || s.verNode == nil {
 			continue
 		}
-		if strings.HasPrefix(s.origin, "plugin@") && s.file == 1 {
-			set["c13.parent_plugin_origin"] = true
-		}
 		phs := placeholders(s.verLit)
 		if len(phs) == 0 {
 			continue
@@ -933,6 +930,12 @@ func propC13Pom(c *pomCase) (ev.Outcome, error) {
 		}
 		if s.visible {
 			return o, fmt.Errorf("harness: %s is declared in the effective model but the reader does not list it", s.name())
+		}
+		if s.file == 1 {
+			// The suggester only proposes updates for declarations of the manifest itself
+			// (OriginalDependency over the base project's own declarations), and FixVulns
+			// never addresses plugin or profile dependencies: no caller produces this update.
+			return o, fmt.Errorf("bad case: update of %s, a plugin/profile dependency of the parent POM, which no caller addresses", s.name())
 		}
 		if strings.Contains(s.verLit, "${") {
 			return o, fmt.Errorf("bad case: update of %s whose requirement %q is not interpolated by the reader (the suggester skips it)", s.name(), s.verLit)
